@@ -46,7 +46,9 @@ MathEnvNames == {<<"a","l","i","g","n">>, <<"a","l","i","g","n","*">>, <<"a","l"
    <<"g","a","t","h","e","r","*">>, <<"m","a","t","h">>, <<"m","u","l","t","l","i","n","e">>,
    <<"m","u","l","t","l","i","n","e","*">>, <<"s","p","l","i","t">>}
 Special == {<<"n","e","w","c","o","m","m","a","n","d">>, <<"r","e","n","e","w","c","o","m","m","a","n","d">>,
-            <<"p","r","o","v","i","d","e","c","o","m","m","a","n","d">>}
+            <<"p","r","o","v","i","d","e","c","o","m","m","a","n","d">>,
+            <<"n","e","w","c","o","m","m","a","n","d","*">>, <<"r","e","n","e","w","c","o","m","m","a","n","d","*">>,
+            <<"p","r","o","v","i","d","e","c","o","m","m","a","n","d","*">>}
 SizePrefix == {<<"l","e","f","t">>, <<"r","i","g","h","t">>, <<"b","i","g">>, <<"B","i","g">>, <<"b","i","g","g">>, <<"B","i","g","g">>}
 Delims == {<<"(">>, <<")">>, <<"<">>, <<">">>, <<"[">>, <<"]">>, <<"{">>, <<"}">>, <<"\\","{">>, <<"\\","}">>, <<".">>, <<"|">>,
            <<"\\","l","a","n","g","l","e">>, <<"\\","r","a","n","g","l","e">>, <<"\\","l","f","l","o","o","r">>,
